@@ -12,12 +12,10 @@ RULE = ('decks without universes whose cells partition space by construction (ra
         'included, structural validity of the file) and model (Lean Layer-B model vs code on pot_complement, the '
         'conversion loop and the post-processing, canonical volume terms). Non-trivial = at least two cells; '
         'distinct = distinct (deck text, options).')
-NOT_PROVED = ['post-processing: proved (postProcess_preserves_partial) that renumbering + remove_empty_volumes + '
-              'remove_unused_volumes keep the denotation of every surviving non-virtual volume and delete only volumes '
-              'containing no point, reading a reference to a deleted volume as the empty set; the full-strength '
-              'statement C01.postProcess_preserves (strict denotation: no dangling reference left) stays a def — it '
-              'needs the termination argument of the remove_empty_volumes loop; dangling references are checked on '
-              'every written file by C08',
+NOT_PROVED = ['that the dictionary built by the conversion loop has no dangling reference (hypothesis Closed of '
+              'postProcess_preserves; unique keys hold by construction of a Python dict): not carried through the '
+              'mutual induction of the volume compiler — checked at run time on every dictionary captured from the code '
+              '(model stream) instead',
               'the link surface senses ↔ geometry (surfValOf / GeomLaws) is the subject of C02–C04']
 ASSUMPTIONS = ['sample points closer than 1e-6 (in |f|) to a surface are skipped']
 
